@@ -375,3 +375,24 @@ def run(ctx: Ctx):
     c.means()
     c.task_structure()
     return EXPLANATION, ASSUMPTIONS
+
+
+def thorough(ctx: Ctx):
+    """Package-wide sweep of the R09.4 pattern (np.mean over a comprehension without emptiness guard); NOTE lines
+    for hits outside the four task modules (inside them they are rule instances already)."""
+    import ast
+    n = 0
+    for mod in ctx.index.modules.values():
+        if mod.name.startswith(TASKS + "."):
+            continue
+        for name, defs in mod.defs.items():
+            for d in defs:
+                if not isinstance(d, ast.FunctionDef):
+                    continue
+                s = ctx.summ.of_func(mod.name, name)
+                for e in s.calls:
+                    if e.term[1] in (("ext", "numpy.mean"), ("ext", "numpy.nanmean")) and e.term[2] and e.term[2][0][0] == "comp":
+                        if e.term[2][0] not in conjuncts(e.live):
+                            n += 1
+                            ctx.note(f"sweep R09.4: unguarded mean over a comprehension in {mod.relpath}:{e.lineno} {name}")
+    ctx.extra["unguarded_means_outside_tasks"] = n
